@@ -258,6 +258,12 @@ def gen(shard, rng, tier):
                 for p in ("release", "dev"):
                     yield {"j": "same", "profile": p, "steps": steps, "x": {"cls": "spellings", "tx": txgen.tx_to_meta(tx)}}
             if rng.random() < 0.05:
+                # a numeric field of another kind present with the value null is not "absent": null is not a number
+                tx = _small_tx(rng, reftx.LEGACY)
+                f = rng.choice(["maxFeePerGas", "maxPriorityFeePerGas"])
+                yield from both(lib_case("bytes", {"op": "tx.process", "json": _doc(rng, tx, {f: "null"})},
+                                         {"cls": "null-fee-field", "expect": "reject", "bucket": "reject-wrong-json-kind", "shown": f + ": null", "tx": None}))
+            if rng.random() < 0.05:
                 # legacy chainId null = no chain id
                 tx = _small_tx(rng, reftx.LEGACY)
                 tx["chainId"] = None
